@@ -471,13 +471,13 @@ package engine
 
 // A session never has two stores open on one data file: two flush timers would write two copies of the header over each other.
 //@ spec pred sessInv(s *Session) { (s.CurDB != "" ==> s.RelationService != nil) && openStores == (s.RelationService != nil ? 1 : 0) &&
-//@        (s.RelationService != nil ==> openDB == strLower(s.CurDB)) }
+//@        (s.RelationService != nil ==> openDB == strLower(s.CurDB) && s.RelationService.fs != nil && s.RelationService.wal != nil) }
 
 // Closing a session closes the store it has open, if any: no flush timer outlives the session.
 //@ func (s *Session) Close() error
 //@   props C17
 //@   requires sessInv(s)
-//@   modifies storeState, ioFailed, openStores
+//@   modifies storeState, ioFailed, openStores, txn, @storeHeap
 //@   ensures[closed; C17] openStores == 0
 
 //@ func (s *Session) ExecQuery(q string) error
